@@ -16,7 +16,7 @@ DISTS = ['CPA', 'CPAAlt', 'DPA', 'ANOVA', 'NICV', 'SNR-auto', 'MIA', 'TemplateBu
 META = dict(
     functions=['scared.distinguishers.base:DistinguisherMixin.update/compute', 'scared.distinguishers.cpa:*', 'scared.distinguishers.dpa:*', 'scared.distinguishers.partitioned:*',
                'scared.distinguishers.mia:*', 'scared.distinguishers.template:*', 'scared.ttest:TTestThreadAccumulator.update/compute/_update_core'],
-    bounds=dict(quick='n = 3 traces, every ordered partition into consecutive non-empty batches (4 compositions), with and without compute() after every update, compute() twice at the end; '
+    bounds=dict(quick='n = 3 traces (MIA: 2), every ordered partition into consecutive non-empty batches (4 compositions), with and without compute() after every update, compute() twice at the end; '
                       '10 distinguishers; trace values symbolic (all reals), class labels concrete patterns including undeclared values; precision float64 (float32 as well for CPA, ANOVA, template build, t-test; for all in the thorough tier)',
                 thorough='n = 4 (8 compositions)'),
     assumptions=['floats are exact reals; equality of states / results is a polynomial (rational) identity decided by z3', 'MIA: samples symbolic, bin membership explored by forking'],
@@ -41,7 +41,8 @@ def jobs(tier, seed):
             if tier == 'quick' and p == 'float32' and d not in ('CPA', 'ANOVA', 'TTest', 'TemplateBuild'):
                 continue          # quick: the second precision only where the dtype handling differs per class
             for variant in range(2 if d in ('ANOVA', 'NICV', 'SNR-auto', 'TemplateBuild') else 1):
-                js.append(dict(name=f'{d}-{p}-n{n}-v{variant}', dist=d, p=p, n=n, variant=variant))
+                nn = 2 if (d == 'MIA' and tier == 'quick') else n          # MIA forks on every sample's bin: 5^n paths
+                js.append(dict(name=f'{d}-{p}-n{nn}-v{variant}', dist=d, p=p, n=nn, variant=variant))
     return js
 
 
